@@ -306,3 +306,53 @@ def gen_program(rng, f):
 
 
 WATCH = CSHARES + NSHARES
+
+
+def nested_condaux_program(rng):
+    """Targeted family: one framer with a chain f0 > f1 > f2 (> f3), conditional auxes on two or three frames of the
+    chain whose conditions the driver turns on at planned ticks (lower ones first) and that complete after planned
+    numbers of runs, so that an upper conditional aux starts -- and often completes -- while a lower one is still
+    running (nested suspension)."""
+    depth = rng.choice([3, 3, 4])
+    ticks = rng.randint(16, 24)
+    hosts = sorted(rng.sample(range(depth - 1), rng.choice([2, 2, min(3, depth - 1)])))     # frames carrying a cond aux
+    frames = []
+    for i in range(depth):
+        name = "f%d" % i
+        st = [P.rec("m0.%s.%s" % (name, c), c) for c in REC_CTX]
+        frames.append(P.frame(name, st, over=("f%d" % (i - 1)) if i else None))
+    auxes = []
+    plan = {}
+    starts = sorted(rng.sample(range(2, ticks - 6), len(hosts)), reverse=True)    # lower hosts start earlier
+    for j, h in enumerate(sorted(hosts, reverse=True)):         # deepest host first
+        a = "a%d" % j
+        share = CSHARES[j]
+        frames[h]["stmts"].append({"v": "aux", "aux": a, "needs": [P.cmp(share, "==", 1)]})
+        plan.setdefault(starts[len(hosts) - 1 - j] if False else sorted(starts)[j], []).append((share, 1))
+        runs = rng.randint(2, 9)
+        ax = [P.frame("x0", [P.rec("%s.x0.%s" % (a, c), c) for c in REC_CTX] + [P.go("x1", [P.cmp("recurred", ">=", runs)])]),
+              P.frame("x1", [{"v": "done", "who": ["me"], "ctx": None}] + [P.rec("%s.x1.%s" % (a, c), c) for c in REC_CTX])]
+        auxes.append(P.framer(a, ax, sched="aux"))
+    # driver
+    dframes, prev = [], 0
+    for i, t in enumerate(sorted(plan)):
+        st = []
+        if i > 0:
+            for sh, v in plan[sorted(plan)[i - 1]]:
+                st.append({"v": "put", "data": {"value": v}, "dst": sh, "ctx": None})
+        st.append({"v": "repeat", "n": t - prev})
+        dframes.append(P.frame("d%d" % i, st))
+        prev = t
+    st = [{"v": "put", "data": {"value": v}, "dst": sh, "ctx": None} for sh, v in plan[sorted(plan)[-1]]]
+    # later the conditions are switched off again so that completed auxes are not restarted at once
+    st.append({"v": "repeat", "n": 1})
+    dframes.append(P.frame("dl", st))
+    dframes.append(P.frame("doff", [{"v": "put", "data": {"value": 0}, "dst": sh, "ctx": None} for sh in CSHARES[:len(hosts)]] +
+                           [{"v": "repeat", "n": max(1, ticks - prev - 1)}]))
+    dframes.append(P.frame("dfin", [{"v": "bid", "ctl": "stop", "who": ["all"], "ctx": None}]))
+    drv = P.framer("drv", dframes, sched="active", order="front")
+    inits = [[sh, {"value": 0}] for sh in CSHARES] + [[sh, {"value": 0}] for sh in NSHARES]
+    prog = P.program([P.house("h", [drv, P.framer("m0", frames)] + auxes, inits=inits)], period="0.125")
+    prog["ticks"] = ticks + 2
+    prog["plan"] = {str(k): v for k, v in plan.items()}
+    return prog
